@@ -46,6 +46,73 @@ def make_case(cid, rng, schema, n_ops, code):
     return {"id": cid, "schema": schema, "ops": full, "_code": code}
 
 
+def make_table_case(cid, rng, schema, code):
+    """Mutating calls of the public 2.x table API (track_table, playlist_table, playlist_entity_table), each swept."""
+    from . import c18
+    from .. import forest as FO
+    u = {"i": set(), "d": set(), "s": set(), "t": set()}
+    full = [{"op": "lib_create_temporary", "schema": schema}, {"op": "info_get", "bind": "uuid", "bind_field": "uuid", "bind_hex": True}]
+
+    def sweep(op):
+        outer = {"op": "fault_sweep", "inner": op, "code": code, "max_k": 600, "keep_going": True, "tables": True,
+                 "observe": {"snapshots": False}}
+        if "bind" in op:
+            # the id comes from the fault-free run at the end of the sweep
+            outer["bind"] = op.pop("bind")
+            outer["bind_field"] = "/final/ret"
+        full.append(outer)
+
+    nt = npl = 0
+    lists = []      # (bind name, parent bind or 0)
+    for _ in range(2):
+        nt += 1
+        sweep({"op": "trk_add", "row": c18.gen_row(rng, u, 0.2), "bind": "t%d" % nt})
+    for _ in range(3):
+        npl += 1
+        parent = 0 if not lists or rng.random() < 0.5 else "$" + rng.choice(lists)[0]
+        sweep({"op": "pl_add", "bind": "p%d" % npl,
+               "row": {"title": FO.hx("List %d" % npl), "parent_list_id": parent, "is_persisted": True, "next_list_id": 0,
+                       "last_edit_time": 1600000000 * 10 ** 9, "is_explicitly_exported": False}})
+        lists.append(("p%d" % npl, parent))
+    for _ in range(14):
+        r = rng.random()
+        if r < 0.12:
+            nt += 1
+            sweep({"op": "trk_add", "row": c18.gen_row(rng, u, 0.2), "bind": "t%d" % nt})
+        elif r < 0.3:
+            col = rng.choice(c18.ALL_COLS)
+            sweep({"op": "trk_set_col", "id": "$t%d" % rng.randrange(1, nt + 1), "col": col, "value": c18.col_value(rng, col, u, 0.2)})
+        elif r < 0.4:
+            row = c18.gen_row(rng, u, 0.2)
+            row["id"] = "$t%d" % rng.randrange(1, nt + 1)
+            sweep({"op": "trk_update", "row": row})
+        elif r < 0.5:
+            npl += 1
+            parent = 0 if rng.random() < 0.4 else "$" + rng.choice(lists)[0]
+            sweep({"op": "pl_add", "bind": "p%d" % npl,
+                   "row": {"title": FO.hx("List %d" % npl), "parent_list_id": parent, "is_persisted": True, "next_list_id": 0,
+                           "last_edit_time": 1600000000 * 10 ** 9, "is_explicitly_exported": False}})
+            lists.append(("p%d" % npl, parent))
+        elif r < 0.62:
+            name, parent = rng.choice(lists)
+            newparent = rng.choice([0] + ["$" + l[0] for l in lists if l[0] != name])
+            sweep({"op": "pl_update", "row": {"id": "$" + name, "title": FO.hx("Moved %s %d" % (name, rng.randrange(100))),
+                                             "parent_list_id": newparent, "is_persisted": True, "next_list_id": 0,
+                                             "last_edit_time": 1700000000 * 10 ** 9, "is_explicitly_exported": True}})
+        elif r < 0.8:
+            sweep({"op": "pe_add_back", "row": {"list_id": "$" + rng.choice(lists)[0], "track_id": "$t%d" % rng.randrange(1, nt + 1),
+                                               "database_uuid": "$uuid", "next_entity_id": 0, "membership_reference": 0}})
+        elif r < 0.88:
+            sweep({"op": "pe_remove", "list": "$" + rng.choice(lists)[0], "track": "$t%d" % rng.randrange(1, nt + 1)})
+        elif r < 0.92:
+            sweep({"op": "pe_clear", "list": "$" + rng.choice(lists)[0]})
+        elif r < 0.96:
+            sweep({"op": "trk_remove", "id": "$t%d" % rng.randrange(1, nt + 1)})
+        else:
+            sweep({"op": "pl_remove", "id": "$" + rng.choice(lists)[0]})
+    return {"id": cid, "schema": schema, "ops": full, "_code": code}
+
+
 def judge_case(ctx, res):
     case = res.case
     schema = case["schema"]
@@ -124,6 +191,12 @@ def run(ctx):
         for k in range(per):
             cases.append(make_case("f%d" % n, ctx.rng, schema, 22 + (k % 3) * 6, codes[k % len(codes)]))
             n += 1
+    from ..framework import V2_SCHEMAS
+    pert = 6 if ctx.tier == "quick" else 100
+    for schema in V2_SCHEMAS:
+        for k in range(pert):
+            cases.append(make_table_case("tb%d" % n, ctx.rng, schema, codes[k % len(codes)]))
+            n += 1
     c0 = cases[0]
     ctx.sample({"schema": c0["schema"], "calls": [opdesc(o["inner"]) for o in c0["ops"] if o["op"] == "fault_sweep"][:14]})
     ctx.assumptions += ["an injected fault is returned instead of executing the statement, so the failed statement itself has no effect "
@@ -137,6 +210,7 @@ def run(ctx):
     fired = ctx.extra.get("faults_by_call", {})
     need = ["create_track", "update", "remove_track", "create_root_crate", "create_sub_crate", "set_name", "set_parent",
             "remove_crate", "add_track", "remove_track_from", "clear_tracks"] + ["set:" + f for f in GH.SETTER_FIELDS]
+    need += ["trk_add", "trk_update", "trk_remove", "pl_add", "pl_update", "pl_remove", "pe_add_back", "pe_remove"]
     missing = [x for x in need if not fired.get(x)]
     if missing:
         ctx.fail_harness("no fault was ever fired inside: %s" % missing)
